@@ -135,7 +135,7 @@ static int v2mode;                   /* 0 accept, 1 veto, 2 rewrite */
 static long next_tok, tokens_out;
 static char *strcb_buf;
 
-typedef struct { unsigned long magic; long id; } ptrtok_t;
+typedef struct { unsigned long magic; long id; unsigned long h; } ptrtok_t;
 #define TOKMAGIC 0x70747274ul
 
 static void log_opt_values(cfg_opt_t *opt);
@@ -186,6 +186,7 @@ static int h_parsecb(cfg_t *cfg, cfg_opt_t *opt, const char *value, void *result
 		case CFGT_PTR: {
 			ptrtok_t *t = xmalloc(sizeof *t);
 			t->magic = TOKMAGIC; t->id = tok = next_tok++;
+			{ const char *q = value ? value : ""; unsigned long h = 5381; for (; *q; q++) h = h * 33 + (unsigned char)*q; t->h = h % 1000000; }
 			tokens_out++;
 			*(void **)result = t;
 			break;
@@ -348,6 +349,7 @@ static void op_schema_opt(char **t, int nt)
 		if (o->type == CFGT_FLOAT) *(double *)st = o->def.fpnumber;
 		if (o->type == CFGT_BOOL) *(cfg_bool_t *)st = o->def.boolean;
 	}
+	if (nt > 12) o->comment = sdec(t[12], NULL);	/* .comment set in the declaration itself */
 	s->nopts++;
 	memset(&s->opts[s->nopts], 0, sizeof(cfg_opt_t));
 }
@@ -364,9 +366,11 @@ static void schema_release(schema_t *s, int poison)
 				if (o->def.string) memset((char *)o->def.string, 0xA5, strlen(o->def.string));
 				if (o->def.parsed) memset(o->def.parsed, 0xA5, strlen(o->def.parsed));
 			}
+			if (poison && o->comment) memset(o->comment, 0xA5, strlen(o->comment));
 			free((char *)o->name);
 			free((char *)o->def.string);
 			free(o->def.parsed);
+			free(o->comment);
 		}
 		if (!poison && s->simple[i]) {
 			if (s->simple_isstr[i]) vm_free(*(char **)s->simple[i]);
@@ -473,7 +477,7 @@ static void log_one_value(cfg_opt_t *o, unsigned i, int depth)
 	case CFGT_STR: jhex(cfg_opt_getnstr(o, i)); break;
 	case CFGT_PTR: {
 		ptrtok_t *t = cfg_opt_getnptr(o, i);
-		fprintf(LOG, "%ld", t ? (t->magic == TOKMAGIC ? t->id : -2) : -1);
+		fprintf(LOG, "%ld", t ? (t->magic == TOKMAGIC ? (long)t->h : -2) : -1);
 		break;
 	}
 	case CFGT_SEC:
@@ -611,6 +615,7 @@ static void badloc(const char *op, const char *tok)
 static void case_cleanup(void)
 {
 	int i;
+	if (geteuid() != getuid()) { if (seteuid(getuid())) {} }
 	for (i = 0; i < MAXCTX; i++) {
 		if (ctx[i]) { cfg_free(ctx[i]); ctx[i] = NULL; }
 	}
@@ -857,6 +862,16 @@ static void run_op(char **t, int nt)
 		else if (op[3] == 'b') rc = idx < 0 ? cfg_setbool(loc_cfg, name, atoi(t[3])) : cfg_setnbool(loc_cfg, name, atoi(t[3]), (unsigned)idx);
 		else { sv = sdec(t[3], NULL); rc = idx < 0 ? cfg_setstr(loc_cfg, name, sv) : cfg_setnstr(loc_cfg, name, sv, (unsigned)idx); }
 		free(name); free(sv);
+		logret(op, rc);
+		return;
+	}
+	/* ---- selfstr <L> <name> <from> <to>: cfg_setnstr(name, cfg_getnstr(name, from), to) - the argument aliases a stored value */
+	if (!strcmp(op, "selfstr")) {
+		char *name; int rc;
+		NEED(5); LOC(1);
+		name = sdec(t[2], NULL);
+		rc = cfg_setnstr(loc_cfg, name, cfg_getnstr(loc_cfg, name, (unsigned)atol(t[3])), (unsigned)atol(t[4]));
+		free(name);
 		logret(op, rc);
 		return;
 	}
@@ -1213,6 +1228,11 @@ static void run_op(char **t, int nt)
 		target = sdec(t[1], NULL); path = sdec(t[2], NULL);
 		if (symlink(target, path) && errno != EEXIST) die("symlink %s", path);
 		free(target); free(path);
+		return;
+	}
+	if (!strcmp(op, "seteuid")) {
+		NEED(2);
+		logret(op, seteuid((uid_t)atol(t[1])));
 		return;
 	}
 	if (!strcmp(op, "setenv")) {
